@@ -10,7 +10,7 @@ From TLV Require Import Base.Shape Base.PyList Base.Tensor Base.Ops Model.Base M
      Proofs.SvdDecompTuckerErr Proofs.SvdDecompTuckerBound Proofs.SvdDecompHosvdBound
      Proofs.SvdDecompPartial Proofs.SvdDecompTuckerGen Proofs.SvdDecompRingErr Proofs.SvdDecompTTMErr
      Proofs.SvdDecompValidate Proofs.SvdDecompRingPartial Proofs.SvdDecompRingErrR
-     Proofs.SvdDecompRankCond Model.SvdDecompSymeig Proofs.SvdDecompSymeig Proofs.SvdDecompSymeigRing Proofs.SvdDecompSymeigEig Model.SvdDecompRand Proofs.SvdDecompRand Proofs.SvdDecompEckartYoung Proofs.SvdDecompTTUpper Proofs.SvdDecompMethodsTucker Proofs.SvdDecompTTRank.
+     Proofs.SvdDecompRankCond Model.SvdDecompSymeig Proofs.SvdDecompSymeig Proofs.SvdDecompSymeigRing Proofs.SvdDecompSymeigEig Model.SvdDecompRand Proofs.SvdDecompRand Proofs.SvdDecompEckartYoung Proofs.SvdDecompTTUpper Proofs.SvdDecompMethodsTucker Proofs.SvdDecompTTRank Proofs.SvdDecompTTMRank Proofs.SvdDecompTuckerRank Proofs.SvdDecompHooiBound.
 Import ListNotations.
 
 (* exactness of one TT-SVD step, over every commutative ring: truncating + sign-flipping a
@@ -1019,3 +1019,98 @@ Print Assumptions C09_tensor_train_exact_requested_ranks.
 
 Example C09_nonvacuous_requested_rank_condition : requested_rank_condition rk1_M [1; 1; 1].
 Proof. exact requested_rank_condition_satisfiable. Qed.
+
+(* FULL: the same for tensor_train_matrix, the rank condition being that of the interleaved, pair-merged tensor ttm_tensor X the
+   function hands to TT-SVD (its k-th sequential unfolding is the (in_1 out_1 .. in_k out_k | rest) unfolding of the matrix);
+   the derived per-run contract is C09_tt_contract_requested *)
+Theorem C09_tt_contract_requested : forall (svd : nat -> tensor R -> svdans) (X : tensor R) (rank : rank_spec),
+  0 < prod (shape X) -> tt_sorted svd X rank ->
+  (forall rk, validate_tt_rank (ndim X) rank = Ok rk -> requested_rank_condition X rk) ->
+  tt_contract svd X rank.
+Proof. exact tt_contract_requested. Qed.
+Print Assumptions C09_tt_contract_requested.
+
+Theorem C09_tensor_train_matrix_exact_requested_ranks : forall (svd : nat -> tensor R -> svdans) (X : tensor R) (rank : rank_spec)
+  (cores : list (tensor R)),
+  0 < prod (shape (ttm_tensor X)) -> tt_sorted svd (ttm_tensor X) rank ->
+  (forall rk, validate_tt_rank (ndim (ttm_tensor X)) rank = Ok rk -> requested_rank_condition (ttm_tensor X) rk) ->
+  tensor_train_matrix Rops svd X rank = Ok cores ->
+  forall is_ js, inb (firstn (ndim X / 2) (shape X)) is_ -> inb (skipn (ndim X / 2) (shape X)) js ->
+  ttm_entry Rops cores is_ js = get 0%R X (is_ ++ js).
+Proof. exact tensor_train_matrix_exact_requested_ranks. Qed.
+Print Assumptions C09_tensor_train_matrix_exact_requested_ranks.
+
+(* ============================================================ Tucker with HOOI sweeps from the rank condition, FULL ========== *)
+(* the mode-m unfolding of a tensor factors through r  <=>  its mode-m fibres are combinations of r columns; n-mode products
+   along the OTHER modes (the working tensor of a HOOI update) preserve that *)
+Theorem C09_span_factors : forall (Y Ym A : tensor R) (m r : nat) (c : nat -> list nat -> R),
+  wf Y -> m < ndim Y -> 0 < prod (shape Y) -> unfold 0%R Y m = Ok Ym ->
+  mode_span Rops Y A m r c ->
+  factors_through Ym (nth m (shape Y) 0) (prod (remove_nth m (shape Y))) r.
+Proof. exact span_factors. Qed.
+Print Assumptions C09_span_factors.
+
+(* FULL, the property's first sentence end to end for Tucker: tucker(init="svd", tol=0) with ANY number of HOOI sweeps reproduces
+   X whenever every mode unfolding of X has rank at most the requested rank of that mode (hosvd_rank_condition: LAPACK's sorted
+   contract for the initialisation answers + the factorisations), LAPACK's sorted contract for the answers of the sweeps
+   (hooi_iter_sorted; working tensors non-empty).  Nothing is assumed about what any truncation discards. *)
+Theorem C09_tucker_exact_from_rank_condition : forall (svd : nat -> tensor R -> svdans) (X : tensor R) (rank : rank_spec)
+  (n_iter : nat) (core : tensor R) (fs : list (tensor R)),
+  wf X -> 0 < prod (shape X) ->
+  hosvd_rank_condition svd X (validate_tucker_rank (ndim X) rank) 0 0 ->
+  match hosvd_factors Rops svd X (validate_tucker_rank (ndim X) rank) 0 0 with
+  | Ok fs0 => hooi_iter_sorted svd X (validate_tucker_rank (ndim X) rank) n_iter (ndim X) fs0
+  | Err => True
+  end ->
+  tucker Rops svd X rank n_iter = Ok (core, fs) ->
+  tucker_to_tensor Rops core fs = Ok X.
+Proof. exact tucker_exact_from_rank_condition. Qed.
+Print Assumptions C09_tucker_exact_from_rank_condition.
+
+Example C09_nonvacuous_tucker_rank_condition :
+  let svd := fun (_ : nat) (_ : tensor R) => rk1_a in
+  wf rk1_M /\ 0 < prod (shape rk1_M) /\
+  hosvd_rank_condition svd rk1_M (validate_tucker_rank (ndim rk1_M) (inr [1; 1])) 0 0.
+Proof. exact tucker_rank_condition_satisfiable. Qed.
+
+(* ============================================================ Tucker with HOOI sweeps: the root-sum-square bound, FULL ======= *)
+(* for factors with orthonormal columns of the requested column counts, one HOOI update of mode m (U_m := leading left singular
+   vectors of the working unfolding, LAPACK's sorted contract for that one answer) does not increase the squared error
+   (error = |X|^2 - |core|^2; Eckart-Young) *)
+Theorem C09_hooi_update_error : forall (X Y Ym : tensor R) (ranks : list nat) (fs : list (tensor R)) (m : nat) (a : svdans),
+  wf X -> factors_ranked (shape X) ranks fs 0 -> length fs = ndim X -> m < ndim X ->
+  multi_mode_dot Rops X fs 0 (Some m) true = Ok Y -> unfold 0%R Y m = Ok Ym -> 0 < prod (shape Y) ->
+  svd_sorted_contract Ym (nth m (shape Y) 0) (prod (remove_nth m (shape Y))) (nth m ranks 0) a ->
+  let U' := fst3 (svd_interface Rops a (nth m ranks 0)) in
+  factors_ranked (shape X) ranks (set_nth m U' fs) 0 /\ (Err X (set_nth m U' fs) <= Err X fs)%R.
+Proof. exact hooi_update_error. Qed.
+Print Assumptions C09_hooi_update_error.
+
+(* FULL: tucker(init="svd", tol=0) with ANY number of HOOI sweeps: squared error <= sum over the modes of the discarded squared
+   singular values of the mode unfoldings of X -- the Tucker root-sum-square bound of the property, squared -- given the full SVD
+   contract for the initialisation answers and LAPACK's sorted contract for the answers of the sweeps *)
+Theorem C09_tucker_hooi_error_bound : forall (svd : nat -> tensor R -> svdans) (X : tensor R) (rank : rank_spec) (n_iter : nat)
+  (core : tensor R) (fs : list (tensor R)),
+  wf X -> 0 < prod (shape X) ->
+  hosvd_full_contract svd X (validate_tucker_rank (ndim X) rank) 0 0 ->
+  match hosvd_factors Rops svd X (validate_tucker_rank (ndim X) rank) 0 0 with
+  | Ok fs0 => hooi_iter_sorted svd X (validate_tucker_rank (ndim X) rank) n_iter (ndim X) fs0
+  | Err => True
+  end ->
+  tucker Rops svd X rank n_iter = Ok (core, fs) ->
+  exists Xh, tucker_to_tensor Rops core fs = Ok Xh /\ shape Xh = shape X /\
+             (terr2 Rops X Xh <= Rsum (hosvd_tail_list svd X (validate_tucker_rank (ndim X) rank) 0 0))%R.
+Proof. exact tucker_hooi_error_bound. Qed.
+Print Assumptions C09_tucker_hooi_error_bound.
+
+Example C09_nonvacuous_hooi_bound :
+  let svd := fun (_ : nat) (_ : tensor R) => ey_a in
+  wf ey_M /\ 0 < prod (shape ey_M) /\
+  hosvd_full_contract svd ey_M (validate_tucker_rank (ndim ey_M) (inr [1; 1])) 0 0.
+Proof. exact hooi_bound_hypotheses_satisfiable. Qed.
+
+Example C09_nonvacuous_ttm_rank_condition :
+  let svd := fun (_ : nat) (_ : tensor R) => ttm_a in
+  0 < prod (shape (ttm_tensor ttmX)) /\ tt_sorted svd (ttm_tensor ttmX) (inr [1; 1; 1]) /\
+  requested_rank_condition (ttm_tensor ttmX) [1; 1; 1].
+Proof. exact ttm_hypotheses_satisfiable. Qed.
